@@ -111,6 +111,31 @@ fn check_seq(acc: &mut Acc, idx: usize, pts: &[IP], full: bool) {
                     if worst > 1e-9 * ext {
                         acc.viol("minimum_rotated_rect does not contain an input point".into(), idx, || json!({"points": format!("{:?}", pts), "scale": sc, "rect": format!("{:?}", r), "outside_by": worst}));
                     }
+                    // the documented contract is the *minimum* bounding rectangle: the smallest rectangle with a side on a hull edge (exact, from the integer hull)
+                    if exact.len() >= 3 {
+                        let h = &exact;
+                        let mut best = f64::INFINITY;
+                        for i in 0..h.len() {
+                            let (p, q) = (h[i], h[(i + 1) % h.len()]);
+                            let (ex, ey) = ((q.0 - p.0) as i128, (q.1 - p.1) as i128);
+                            let (mut lo_a, mut hi_a, mut lo_c, mut hi_c) = (i128::MAX, i128::MIN, i128::MAX, i128::MIN);
+                            for v in h.iter() {
+                                let (dx, dy) = ((v.0 - p.0) as i128, (v.1 - p.1) as i128);
+                                let (al, cr) = (dx * ex + dy * ey, dx * ey - dy * ex);
+                                lo_a = lo_a.min(al);
+                                hi_a = hi_a.max(al);
+                                lo_c = lo_c.min(cr);
+                                hi_c = hi_c.max(cr);
+                            }
+                            let area = ((hi_a - lo_a) as f64) * ((hi_c - lo_c) as f64) / ((ex * ex + ey * ey) as f64);
+                            best = best.min(area);
+                        }
+                        let want = best * sc * sc;
+                        acc.maxf("mrr area / exact minimum area", a / want);
+                        if a > want * (1.0 + 1e-9) {
+                            acc.viol("minimum_rotated_rect is not minimal: a rectangle on another hull edge is smaller".into(), idx, || json!({"points": format!("{:?}", pts), "scale": sc, "rect": format!("{:?}", r), "area": a, "exact_minimum_area": want}));
+                        }
+                    }
                     if a > br.width() * br.height() * (1.0 + 1e-12) + 1e-12 * ext * ext {
                         acc.viol("minimum_rotated_rect larger than the bounding rect".into(), idx, || json!({"points": format!("{:?}", pts), "scale": sc, "rect": format!("{:?}", r), "area": a, "bbox_area": br.width() * br.height()}));
                     }
@@ -171,6 +196,21 @@ pub fn run(mut run: Run) -> i32 {
         let g3 = g3.clone();
         run.stage(&format!("G3-repetition-k{}", k), n, move |idx, acc| {
             let pts: Vec<IP> = nth_sequence(9, k, idx).iter().map(|&i| g3[i]).collect();
+            check_seq(acc, idx, &pts, true);
+        });
+    }
+    // large coordinates (~1e9: cross products exceed 2^53) with several points within a few units of one chord: the farthest-point search of
+    // quick-hull works in rounded floating point there, the partition in exact arithmetic; every order of the points
+    {
+        let (a, b): (i64, i64) = (400000007, 300000011);
+        let perms: Vec<Vec<usize>> = { let mut v = vec![]; let idxs = [0usize, 1, 2, 3, 4]; fn rec(cur: &mut Vec<usize>, rest: &[usize], out: &mut Vec<Vec<usize>>) { if rest.is_empty() { out.push(cur.clone()); return; } for i in 0..rest.len() { let mut r = rest.to_vec(); let x = r.remove(i); cur.push(x); rec(cur, &r, out); cur.pop(); } } rec(&mut vec![], &idxs, &mut v); v };
+        let np = if quick { 12 } else { perms.len() };
+        run.stage("large-near-collinear", 625 * np, move |idx, acc| {
+            let (o, pi) = ((idx / np) as i64, idx % np);
+            let (dx1, dy1, dx2, dy2) = (o % 5 - 2, (o / 5) % 5 - 2, (o / 25) % 5 - 2, o / 125 - 2);
+            let base = [(0, 0), (a + dx1, b + dy1), (2 * a + dx2, 2 * b + dy2), (3 * a, 3 * b), (a, -b)];
+            let perm = &perms[pi * (perms.len() / np)];
+            let pts: Vec<IP> = perm.iter().map(|&i| base[i]).collect();
             check_seq(acc, idx, &pts, true);
         });
     }
